@@ -57,6 +57,64 @@ def coq_op(op):
     return f"Local {cnat(op[1])} " + {"dorm": "EnterDormancy", "wake": "ExitDormancy", "interest": "Interest", "reset": "Reset"}[k]
 
 
+class _ThreadingShim:
+    """What `threading` is for metabolism.py while a schedule runs: a lock the module creates from a scheduled thread
+    (lazily, or to replace one) is a scheduler-aware lock too, so that it can be pre-empted around like the others."""
+
+    def __init__(self, real, world, s):
+        self._real, self._world, self._s, self._n = real, world, s, 0
+
+    def _mk(self, reentrant):
+        if self._s.current_tid() is None:
+            return self._real.RLock() if reentrant else self._real.Lock()
+        self._n += 1
+        return RecLock(self._s, reentrant, f"made-during-run-{self._n}", self._world, record=True)
+
+    def Lock(self):
+        return self._mk(False)
+
+    def RLock(self):
+        return self._mk(True)
+
+    def __getattr__(self, name):
+        return getattr(self._real, name)
+
+
+def _provenance(store, how):
+    """The store the threads share is not always the object the constructor returned: a shallow copy, a deep copy or a
+    pickle round trip of a fresh store (where the implementation refuses one of these, the next milder one is used)."""
+    if not how:
+        return store
+    import sys
+    old_hook = sys.unraisablehook
+    sys.unraisablehook = lambda *a: None      # a half-built copy the implementation refused is finalised quietly
+    try:
+        return _provenance1(store, how)
+    finally:
+        sys.unraisablehook = old_hook
+
+
+def _provenance1(store, how):
+    import copy
+    import pickle
+    if how == "pickle":
+        try:
+            return pickle.loads(pickle.dumps(store))
+        except Exception:
+            how = "deepcopy"
+    if how == "deepcopy":
+        try:
+            return copy.deepcopy(store)
+        except Exception:
+            how = "copy"
+    if how == "copy":
+        try:
+            return copy.copy(store)
+        except Exception:
+            return store
+    return store
+
+
 class World:
     """Real ATP_Store objects with scheduler-aware locks + the threads' programs."""
 
@@ -65,6 +123,9 @@ class World:
         self.M = M
         C4._snap.mod = M
         self.stores = C4._mk_stores(M, case["stores"])
+        self.stores = [_provenance(st, c.get("prov")) for st, c in zip(self.stores, case["stores"])]
+        self._real_threading = M.threading if not isinstance(M.threading, _ThreadingShim) else M.threading._real
+        M.threading = _ThreadingShim(self._real_threading, self, s)
         self.coarse = []             # tid of each outermost critical section, in order
         for i, st in enumerate(self.stores):
             # every lock object the store owns is put under the scheduler's control, not only `_lock`
@@ -88,6 +149,7 @@ class World:
             self.fns.append(run)
 
     def outcome(self):
+        self.M.threading = self._real_threading
         snaps = [C4._snap(st) for st in self.stores]
         return {"results": [list(r) for r in self.results], "stores": snaps, "coarse": list(self.coarse)}
 
@@ -100,8 +162,64 @@ def run_fine(case, prefix):
         holder["w"] = w
         return w.fns, w.outcome
 
-    s, out = sched.run_schedule(make_world, prefix, TARGET)
+    try:
+        s, out = sched.run_schedule(make_world, prefix, TARGET)
+    finally:
+        w = holder.get("w")
+        if w is not None:
+            w.M.threading = w._real_threading
     return s, out
+
+
+def _jitter_run(case, seed):
+    """One run of the program on real threads and real locks; returns (outcome, some thread did not finish)."""
+    import random
+    import sys
+    import threading
+    import time
+    from operon_ai.state import metabolism as M
+    C4._snap.mod = M
+    stores = C4._mk_stores(M, case["stores"])
+    stores = [_provenance(st, c.get("prov")) for st, c in zip(stores, case["stores"])]
+    results = [[] for _ in case["threads"]]
+    target = M.__file__
+    barrier = threading.Barrier(len(case["threads"]))
+
+    def run(tid, prog):
+        rng = random.Random(f"{seed}:{tid}")
+
+        def local(frame, event, arg):
+            if event == "line" and rng.random() < 0.5:
+                time.sleep(rng.choice([0.0, 0.0002, 0.0005, 0.001]))
+            return local
+
+        def tracer(frame, event, arg):
+            return local if frame.f_code.co_filename == target else None
+        try:
+            barrier.wait(2.0)
+        except Exception:
+            pass
+        sys.settrace(tracer)
+        try:
+            for op in prog:
+                r, exc = None, None
+                try:
+                    r = C4._apply(M, stores, tuple(op))
+                except Exception as e:  # noqa
+                    exc = e
+                results[tid].append(ret_code(r, exc))
+        finally:
+            sys.settrace(None)
+
+    ths = [threading.Thread(target=run, args=(t, p), daemon=True) for t, p in enumerate(case["threads"])]
+    for t in ths:
+        t.start()
+    deadline = time.time() + 5.0
+    for t in ths:
+        t.join(max(0.0, deadline - time.time()))
+    hung = any(t.is_alive() for t in ths)
+    snaps = [C4._snap(st) for st in stores]
+    return {"results": [list(r) for r in results], "stores": snaps, "coarse": []}, hung
 
 
 class C05(Check):
@@ -174,6 +292,9 @@ class C05(Check):
                 else:
                     prog.append(["consume", i, 5, "ATP", False, 0])
             threads.append(prog)
+        if rng.random() < 0.25:
+            how = rng.choice(["copy", "deepcopy", "pickle"])
+            stores = [dict(c, prov=how) if rng.random() < 0.8 else c for c in stores]
         return {"stores": stores, "threads": threads}
 
     CORPUS_PROGRAMS = [
@@ -220,6 +341,13 @@ class C05(Check):
         # spend with NADH top-up vs convert
         {"stores": [{"budget": 5, "gtp": 0, "nadh": 3, "max_debt": 5, "rate": 0.5}],
          "threads": [[["consume", 0, 8, "ATP", True, 0]], [["convert", 0, 3], ["regen", 0, 5, "ATP"]]]},
+        # the shared store is a copy / deep copy / pickle round trip of a fresh one, and its first two calls overlap
+        {"stores": [{"budget": 10, "gtp": 0, "nadh": 0, "max_debt": 0, "rate": 0.5, "prov": "copy"}],
+         "threads": [[["consume", 0, 6, "ATP", False, 0]], [["consume", 0, 6, "ATP", False, 0]]]},
+        {"stores": [{"budget": 10, "gtp": 0, "nadh": 0, "max_debt": 0, "rate": 0.5, "prov": "pickle"}],
+         "threads": [[["consume", 0, 6, "ATP", False, 0]], [["consume", 0, 6, "ATP", False, 0]], [["regen", 0, 3, "ATP"]]]},
+        {"stores": [{"budget": 5, "gtp": 0, "nadh": 0, "max_debt": 0, "rate": 0.5, "prov": "deepcopy"}] * 2,
+         "threads": [[["transfer", 0, 1, 3, "ATP"]], [["transfer", 1, 0, 3, "ATP"], ["consume", 0, 5, "ATP", False, 0]]]},
     ]
 
     def _explore(self, prog, bound, max_runs):
@@ -231,6 +359,13 @@ class C05(Check):
             prefix = stack.pop()
             s, out = run_fine(prog, prefix)
             runs += 1
+            if s.stalled is not None:
+                # a thread is blocked on something the scheduler does not control (a lock the implementation made while
+                # the threads were running, a sleep): parking threads at source lines is not faithful for this program.
+                # It is left to the real-thread runs (extra_checks) and to the lock-discipline obligation.
+                self.extra_cov.setdefault("programs_not_schedulable", []).append(
+                    {"stores": prog["stores"], "threads": prog["threads"]})
+                return
             chosen = [c for c, _ in s.trace if c is not None]
             key = tuple(chosen)
             if key in seen:
@@ -278,8 +413,8 @@ class C05(Check):
             row += [len(prog) - len(res), 0]
             obs.append(row)
         obs.append([x for st in out["stores"] for x in C4._row(st)])
-        trace = {"out": out, "deadlock": s.deadlock, "errors": {k: repr(v) for k, v in s.errors.items()},
-                 "fine": [c for c, _ in s.trace]}
+        trace = {"out": out, "deadlock": s.deadlock and s.stalled is None, "stalled": s.stalled is not None,
+                 "errors": {k: repr(v) for k, v in s.errors.items()}, "fine": [c for c, _ in s.trace]}
         return obs, trace
 
     def coq_case(self, case):
@@ -308,6 +443,8 @@ class C05(Check):
     def monitor(self, case, obs, trace):
         if trace.get("harness_error"):
             return Violation("C05/harness", str(trace))
+        if trace.get("stalled"):
+            return None        # not a schedule the scheduler controls (see _explore); judged by the real-thread runs
         if trace["deadlock"]:
             return Violation("C05/deadlock", f"all unfinished threads are blocked on store locks (fine schedule {trace['fine']})")
         if trace["errors"]:
@@ -466,6 +603,35 @@ class C05(Check):
                         if alt != c and self._preemptions(chosen[:i] + [alt], s.trace) <= 1:
                             stack.append(chosen[:i] + [alt])
         self.extra_cov["exception_in_critical_section_runs"] = n_runs
+        # Real threads on real locks, no scheduler: every source line of metabolism.py a thread executes may be followed by
+        # a short sleep (which releases the interpreter lock), so that windows of a line or two are hit within a few runs.
+        # This reaches what the scheduler cannot put under its control: locks the implementation creates while the threads
+        # are already running (for a store that is a copy / deep copy / pickle round trip of a fresh one, say).  An outcome
+        # found this way is judged by the same monitor; it is an observation of the real code, whatever produced it.
+        progs = [p for p in self.CORPUS_PROGRAMS if any(c.get("prov") for c in p["stores"])]
+        progs += [p for p in self.CORPUS_PROGRAMS[:9] if not any(c.get("prov") for c in p["stores"])]
+        base = [{"stores": [{"budget": 100, "gtp": 0, "nadh": 0, "max_debt": 0, "rate": 0.5}],
+                 "threads": [[["consume", 0, 60, "ATP", False, 0]], [["consume", 0, 60, "ATP", False, 0]]]},
+                {"stores": [{"budget": 10, "gtp": 0, "nadh": 4, "max_debt": 0, "rate": 0.5}],
+                 "threads": [[["consume", 0, 8, "ATP", False, 0], ["convert", 0, 4]], [["consume", 0, 4, "NADH", False, 0]],
+                             [["regen", 0, 5, "ATP"]]]}]
+        for b in base:
+            for how in ("copy", "deepcopy", "pickle"):
+                progs.append({"stores": [dict(c, prov=how) for c in b["stores"]], "threads": b["threads"]})
+        per = 10 if self.tier == "quick" else 60
+        n_j = 0
+        for pi, prog in enumerate(progs):
+            for k in range(per):
+                out, hung = _jitter_run(prog, f"C05:jitter:{self.seed}:{pi}:{k}")
+                n_j += 1
+                case = {"stores": prog["stores"], "threads": prog["threads"], "schedule": [], "jitter_seed": f"{self.seed}:{pi}:{k}"}
+                v = self.monitor(case, None, {"out": out, "deadlock": hung, "errors": {}, "fine": "real threads, line jitter"})
+                if v is not None:
+                    v.case = case
+                    v.what = "real threads with line-level jitter: " + v.what
+                    self.violations.append(v)
+                    break
+        self.extra_cov["jitter_runs"] = n_j
 
     def known_witnesses(self):
         return []
